@@ -637,7 +637,7 @@ var objKinds = map[string]bool{"setNonce": true, "incNonce": true, "setCode": tr
 // knownShape decides whether reverting to live[target] would run into a recorded finding. It
 // only ever returns a finding that is currently listed as known; otherwise nothing is steered.
 // taint lists accounts on which an (as yet invisible) leftover of F-C04-a remains.
-func knownShape(log []*entry, live []snap, target int, start obs) (finding string, taint []int) {
+func knownShape(log []*entry, live []snap, target int, start obs, skipC bool) (finding string, taint []int) {
 	tg := live[target]
 	seenObj := map[int]bool{}
 	for _, x := range log[tg.pos:] {
@@ -669,7 +669,7 @@ func knownShape(log []*entry, live []snap, target int, start obs) (finding strin
 		if x.touchesObj && !seenObj[a] {
 			seenObj[a] = true
 			loadedEmpty := start.get(a, "exist") == "true" && tg.obs.get(a, "exist") == "true" && tg.obs.get(a, "empty") == "true"
-			if loadedEmpty && x.zeroAddFT && stats.IsKnown(findingC) {
+			if loadedEmpty && x.zeroAddFT && stats.IsKnown(findingC) && !skipC {
 				return findingC, nil
 			}
 			if loadedEmpty && !x.zeroAddFT && stats.IsKnown(findingB) {
@@ -678,6 +678,25 @@ func knownShape(log []*entry, live []snap, target int, start obs) (finding strin
 		}
 	}
 	return "", taint
+}
+
+// touchedThenReverted: the loaded-empty accounts whose first reverted object mutator (in the range a revert to
+// live[target] undoes) is a zero-amount AddFT - the accounts left in the state F-C04-c describes.
+func touchedThenReverted(log []*entry, live []snap, target int, start obs) (out []int) {
+	tg := live[target]
+	seenObj := map[int]bool{}
+	for _, x := range log[tg.pos:] {
+		if x.reverted || !x.touchesObj || seenObj[x.op.A] {
+			continue
+		}
+		a := x.op.A
+		seenObj[a] = true
+		loadedEmpty := start.get(a, "exist") == "true" && tg.obs.get(a, "exist") == "true" && tg.obs.get(a, "empty") == "true"
+		if loadedEmpty && x.zeroAddFT {
+			out = append(out, a)
+		}
+	}
+	return out
 }
 
 func nonceZeroCodeless(o obs, a int) bool {
@@ -701,6 +720,7 @@ func runBlock(t *rapid.T, spec baseSpec, main, replay *world, blockNo int, lastB
 		cur       = start
 		txNo      = 0
 		tainted   = map[int]bool{} // F-C04-a steering only
+		cTainted  = map[int]bool{} // F-C04-c steering: accounts whose object must not be mutated again in this block
 		recreated = map[int]bool{}
 	)
 	for step, o := range ops {
@@ -729,7 +749,26 @@ func runBlock(t *rapid.T, spec baseSpec, main, replay *world, blockNo int, lastB
 			target := live[o.Snap]
 			revID = target.id
 			// --- steering around recorded findings (each only while it is listed as known)
-			if f, taint := knownShape(log, live, o.Snap, start); f != "" {
+			f, taint := knownShape(log, live, o.Snap, start, false)
+			if f == findingC {
+				if f2, taint2 := knownShape(log, live, o.Snap, start, true); f2 != "" {
+					f = f2 // another recorded shape lies in the same range
+				} else {
+					f, taint = "performC", taint2
+				}
+			}
+			if f == "performC" {
+				// F-C04-c only shows when the account object is mutated again after this revert (the write never
+				// reaches the trie). The revert itself is performed and checked like any other; later mutators of
+				// the accounts concerned are steered away below.
+				for _, a := range touchedThenReverted(log, live, o.Snap, start) {
+					cTainted[a] = true
+				}
+				for _, a := range taint {
+					tainted[a] = true
+				}
+				stats.Class("revert_of_zero_amount_touch_on_loaded_empty_account_performed")
+			} else if f != "" {
 				stats.Exclude(f)
 				cs.trace = append(cs.trace, "(revert steered away: "+f+")")
 				continue
@@ -752,6 +791,11 @@ func runBlock(t *rapid.T, spec baseSpec, main, replay *world, blockNo int, lastB
 			if cur.get(o.A, "suicided") == "true" {
 				recreated[o.A] = true
 			}
+		}
+		if stats.IsKnown(findingC) && objKinds[o.Kind] && cTainted[o.A] {
+			stats.Exclude(findingC)
+			cs.trace = append(cs.trace, "(mutator steered away: "+findingC+")")
+			continue
 		}
 		if o.Kind != "snapshot" && o.Kind != "revert" && o.Kind != "prepare" && o.Kind != "addRefund" && o.Kind != "subRefund" {
 			e.classAt = lifeClass(spec, start, cur, o.A, recreated)
